@@ -24,7 +24,8 @@ RULE = ("rule-based state machine (Hypothesis): histories of up to 15 operations
         "the end; plus exhaustive enumeration of all operation sequences to depth 3 (thorough: 4) over fixed representative "
         "arguments. Non-trivial = >= 2 mutating operations with >= 1 read between them; distinct by operation-name sequence + "
         "storage mode"
-        ' Round-3 additions: similarities with scale 1 +- {3e-5..2e-4}, left Sim(3) with the propagate flag, CLI-style scale-only align, time axes with a stamp exactly 0.0 and negative stamps.')
+        ' Round-3 additions: similarities with scale 1 +- {3e-5..2e-4}, left Sim(3) with the propagate flag, CLI-style scale-only align, time axes with a stamp exactly 0.0 and negative stamps.'
+        ' Round-8 addition (reduce_any_ids): reduce_to_ids with arbitrary index lists - reversal, rotation, permutations, repeats, full length - after reading any subset of the views.')
 ASSUMPTIONS = ["positions compared with relative tolerance 1e-9 of the largest coordinate seen, orientations 1e-9",
                "after projection the model adopts evo's heading (the statement only fixes 'rotation about the normal'); kept ids of "
                "filters are identified by matching poses and judged with the C11 checkers"]
@@ -670,8 +671,47 @@ REPLAY = Sub("history", replay, st.fixed_dictionaries({"init": st_init, "ops": s
              300, 10000, nontrivial=_nontrivial)
 MACHINE = Sub("history", replay, kind="machine", state_machine=TrajectoryMachine, n_quick=400, n_thorough=20000, steps=15,
               nontrivial=_nontrivial, shards_quick=8)
+
+def sub_reduce_any(case):
+    """reduce_to_ids with ANY index list (numpy selection semantics: any order, repeats, full length): every view and the
+    timestamps are the selection [old[i] for i in ids]"""
+    h = History(case["init"])
+    n = len(h.poses)
+    for v in case["reads"]:
+        getattr(h.obj, v)
+    vals = [int(v) % n for v in case["vals"]] or [0]
+    if case["kind"] == "reverse":
+        ids = list(range(n))[::-1]
+    elif case["kind"] == "perm":
+        keys = (vals * n)[:n]
+        ids = sorted(range(n), key=lambda i: (keys[i], -i))
+    elif case["kind"] == "rotate":
+        k = vals[0] % n
+        ids = list(range(k, n)) + list(range(k))
+    else:
+        ids = vals
+    h.obj.reduce_to_ids(np.asarray(ids, dtype=int) if case["as_array"] else ids)
+    h._select(ids)
+    what = "reduce_to_ids(%s) on %d poses" % (ids[:12], n)
+    h.invariant(what)
+    for v in trajgen.VIEWS:
+        getattr(h.obj, v)
+    h.invariant(what + " and reading all views")
+    return "%s/%s" % (case["kind"], "full" if len(ids) == n else "other")
+
+
+def _nt_reduce_any(c):
+    return c["kind"] != "free" or len(c["vals"]) >= 2
+
+
+st_reduce_any = st.fixed_dictionaries({
+    "init": st_init, "reads": st.lists(st.sampled_from(trajgen.VIEWS), max_size=3, unique=True),
+    "kind": st.sampled_from(["reverse", "perm", "rotate", "free"]), "vals": st.lists(st.integers(0, 40), min_size=1, max_size=16),
+    "as_array": st.booleans()})
+
 SUBS = [
     MACHINE,
     Sub("enumerate", kind="custom", custom=custom_enum, n_quick=1, n_thorough=1, shards_quick=8, shards_thorough=16,
         exhaustive_tiers=("quick", "thorough")),
+    Sub("reduce_any_ids", sub_reduce_any, st_reduce_any, 1500, 60000, nontrivial=_nt_reduce_any),
 ]
